@@ -358,4 +358,378 @@ Proof.
     intros Hb. rewrite Eb in Hb. discriminate.
 Qed.
 
+(* ------------------------------------------------------------------ sorting a sorted world changes nothing *)
+Lemma set_content_same n : set_content n (n_content n) = n.
+Proof. destruct n; reflexivity. Qed.
+
+Lemma weq_refl w : weq w w. Proof. apply agree_refl. Qed.
+Lemma weq_trans a b c : weq a b -> weq b c -> weq a c. Proof. apply agree_trans. Qed.
+
+Definition fix_ok (f : nat) (rec : id -> W unit) : Prop :=
+  forall c u r u', closed ball u -> sorted_f f u c -> rec c u = Val (r, u') -> weq u u'.
+
+Lemma keyed_loop_fix f rec ty l : frame_ok T rec -> fix_ok f rec ->
+  forall u r u', closed ball u -> (forall c, In (CElem c) l -> sorted_f f u c) ->
+    keyed_loop T rec ty l u = Val (r, u') -> weq u u'.
+Proof.
+  intros F X. induction l as [| it l IH]; intros u r u' C K H.
+  - cbn in H. injection H as _ <-. apply weq_refl.
+  - destruct it as [c | d]; cbn [keyed_loop] in H; [| eapply IH; eauto; intros; apply K; right; auto].
+    apply wbind_val in H as [(x & w1 & E1 & H) | (e & E1 & _)]; [| apply F in E1 as [E1 _]; discriminate].
+    pose proof (X c u _ w1 C (K c (or_introl eq_refl)) E1) as A1.
+    apply wbind_val in H as [(cn & w2 & E2 & H) | (e & E2 & _)];
+      [| apply get_node_val in E2 as (? & _ & E2 & _); discriminate].
+    apply get_node_val in E2 as (cn' & Wc & E2 & ->). injection E2 as <-.
+    apply wbind_val in H as [(fs & w3 & E3 & H) | (e & E3 & _)];
+      [| apply wl_val in E3 as (? & _ & E3 & _); discriminate].
+    apply wl_val in E3 as (fs' & Hfs & E3 & ->). injection E3 as <-.
+    destruct fs as [[et idx] |]; [| discriminate].
+    assert (K1 : forall c', In (CElem c') l -> sorted_f f w1 c').
+    { intros c' ic'. eapply (sorted_agree ball u w1); eauto. apply K. right; auto. }
+    apply wbind_val in H as [(more & w4 & E4 & H) | (e & E4 & ->)].
+    + cbn in H. injection H as _ <-. eapply weq_trans; [exact A1 |]. eapply IH; eauto. eapply closed_agree; eauto.
+    + eapply weq_trans; [exact A1 |]. eapply IH; eauto. eapply closed_agree; eauto.
+Qed.
+
+Lemma iter_loop_fix f rec l : frame_ok T rec -> fix_ok f rec ->
+  forall u r u', closed ball u -> (forall c, In (CElem c) l -> sorted_f f u c) ->
+    iter_loop rec l u = Val (r, u') -> weq u u'.
+Proof.
+  intros F X. induction l as [| it l IH]; intros u r u' C K H.
+  - cbn in H. injection H as _ <-. apply weq_refl.
+  - destruct it as [c | d]; cbn [iter_loop] in H; [| eapply IH; eauto; intros; apply K; right; auto].
+    apply wbind_val in H as [(x & w1 & E1 & H) | (e & E1 & _)]; [| apply F in E1 as [E1 _]; discriminate].
+    pose proof (X c u _ w1 C (K c (or_introl eq_refl)) E1) as A1.
+    eapply weq_trans; [exact A1 |]. eapply IH; eauto; [eapply closed_agree; eauto |].
+    intros c' ic'. eapply (sorted_agree ball u w1); eauto. apply K. right; auto.
+Qed.
+
+Lemma sorted_fix f : fix_ok f (sort_f' f).
+Proof.
+  induction f as [| f IH]; intros i u r u' C S H; [discriminate |].
+  destruct S as (n0 & mode0 & Wi0 & Hm0 & S).
+  cbn [sort_f] in H.
+  apply wbind_val in H as [(n & w1 & E1 & H) | (e & E1 & _)];
+    [| apply get_node_val in E1 as (? & _ & E1 & _); discriminate].
+  apply get_node_val in E1 as (n' & Wi & E1 & ->). injection E1 as <-.
+  rewrite Wi0 in Wi. injection Wi as <-.
+  apply wbind_val in H as [(mode & w2 & E2 & H) | (e & E2 & _)];
+    [| apply wl_val in E2 as (? & _ & E2 & _); discriminate].
+  apply wl_val in E2 as (mode' & Hmode & E2 & ->). injection E2 as <-.
+  rewrite Hm0 in Hmode. injection Hmode as <-.
+  destruct ((mode0 =? MCharacters) || (mode0 =? MMixed)) eqn:Em.
+  { cbn in H. injection H as _ <-. apply weq_refl. }
+  destruct S as [S | (_ & ordered0 & Ho0 & Hk & Hs)]; [discriminate |].
+  apply wbind_val in H as [(ordered & w3 & E3 & H) | (e & E3 & _)];
+    [| apply wl_val in E3 as (? & _ & E3 & _); discriminate].
+  apply wl_val in E3 as (ordered' & Hord & E3 & ->). injection E3 as <-.
+  rewrite Ho0 in Hord. injection Hord as <-.
+  destruct (negb ordered0 && (1 <? N.of_nat (List.length (n_content n0)))) eqn:Eb; [| eapply iter_loop_fix; eauto; apply FR].
+  destruct (Hs eq_refl) as [Hall Hsorted].
+  apply wbind_val in H as [(keyed & u4 & E4 & H) | (e & E4 & _)];
+    [| eapply keyed_loop_frame in E4 as (_ & ? & E4 & _); [discriminate | exact (FR f)]].
+  pose proof (keyed_loop_frame T _ _ _ (FR f) _ _ _ E4) as (R4 & keyed' & Ek & Hk4). injection Ek as <-.
+  pose proof (keyed_loop_keyed _ _ _ (FR f) _ _ _ E4) as Kd.
+  pose proof (keyed_loop_fix f _ _ _ (FR f) IH _ _ _ C Hk E4) as A4.
+  apply wbind_val in H as [(wc & w5 & E5 & H) | (e & E5 & _)]; [| discriminate].
+  unfold wget in E5. injection E5 as <- <-.
+  apply wbind_val in H as [(x & w6 & E6 & H) | (e & E6 & _)];
+    [| apply wl_val in E6 as (? & _ & E6 & _); discriminate].
+  apply wl_val in E6 as (x' & AP & _ & ->). destruct x'.
+  unfold modify_node in H.
+  apply wbind_val in H as [(n1 & w7 & E7 & H) | (e & E7 & _)];
+    [| apply get_node_val in E7 as (? & _ & E7 & _); discriminate].
+  apply get_node_val in E7 as (n1' & W1 & E7 & ->). injection E7 as <-.
+  rewrite (proj2 A4 i eq_refl), Wi0 in W1. injection W1 as <-.
+  unfold set_node in H. injection H as _ <-.
+  (* the keys are the same in u and u4, the list is sorted: sort_by returns it *)
+  assert (M : forall c, In c (celems (n_content n0)) -> exists cn, w_nodes u c = Some cn).
+  { intros c ic. apply in_celems in ic. apply (C i n0 c eq_refl Wi0 ic). }
+  assert (KE : keyed = keyed_of u (n_type n0) (celems (n_content n0))).
+  { rewrite Kd. unfold keyed_of. apply map_ext. intros c. f_equal. unfold idx_of. rewrite (proj2 A4 c eq_refl). reflexivity. }
+  assert (E : srt _ (key_cmp (cmp_tot u4)) keyed = keyed).
+  { apply (ss_fix srt SS).
+    - apply (key_cmp_total_preorder T tab_el tab_at tab_en name_index name_definition_ref u4 keyed).
+      intros a b ia ib. eapply all_pairs_val_inv; eauto.
+    - rewrite KE. eapply sorted_by_ext; [| exact Hsorted].
+      intros a b ia ib. unfold key_cmp. f_equal.
+      assert (sa : In (snd a) (celems (n_content n0))) by (rewrite <- (map_snd_keyed_of u (n_type n0)); apply in_map; auto).
+      assert (sb : In (snd b) (celems (n_content n0))) by (rewrite <- (map_snd_keyed_of u (n_type n0)); apply in_map; auto).
+      eapply (cmp_tot_agree T tab_el tab_at tab_en name_index name_definition_ref ball u u4); eauto. }
+  rewrite E. eapply weq_trans; [exact A4 |].
+  rewrite <- (map_map snd CElem), Hk4, <- Hall, set_content_same.
+  split; auto. intros j _. cbn. unfold upd. destruct (j =? i) eqn:Ej; auto.
+  apply N.eqb_eq in Ej. subst j. rewrite (proj2 A4 i eq_refl). auto.
+Qed.
+
+(* ------------------------------------------------------------------ idempotence *)
+Theorem sort_idem f i w r w1 r2 w2 reg : Regions w reg ->
+  sort_f' f i w = Val (r, w1) -> sort_f' f i w1 = Val (r2, w2) -> weq w1 w2.
+Proof.
+  intros R H1 H2. pose proof (FR f _ _ _ _ H1) as [_ R1].
+  eapply sorted_fix; [| eapply sort_sorted; eauto | exact H2].
+  eapply closed_ball. eapply Regions_rel; eauto.
+Qed.
+
+(* ------------------------------------------------------------------ canonical form *)
+(* the type of a sub-element is determined by the type of its parent and its name *)
+Definition TypeDet (w : world) : Prop :=
+  forall p q np nq x y nx ny, w_nodes w p = Some np -> w_nodes w q = Some nq -> n_type np = n_type nq ->
+    In (CElem x) (n_content np) -> In (CElem y) (n_content nq) -> w_nodes w x = Some nx -> w_nodes w y = Some ny ->
+    n_name nx = n_name ny -> n_type nx = n_type ny.
+Definition U64 (w : world) : Prop := forall i n, w_nodes w i = Some n -> node_u64 n.
+
+Lemma TypeDet_rel w w' : world_rel' w w' -> TypeDet w -> TypeDet w'.
+Proof.
+  intros (_ & _ & _ & nodes) TD p q np' nq' x y nx' ny' Wp Wq et ix iy Wx Wy en.
+  assert (back : forall i n', w_nodes w' i = Some n' -> exists n, w_nodes w i = Some n /\ node_rel T n n').
+  { intros i n' Wi. pose proof (nodes i) as h. rewrite Wi in h. destruct (w_nodes w i) as [n |]; [eauto | destruct h]. }
+  destruct (back p _ Wp) as (np & Wp0 & hp). destruct (back q _ Wq) as (nq & Wq0 & hq).
+  destruct (back x _ Wx) as (nx & Wx0 & hx). destruct (back y _ Wy) as (ny & Wy0 & hy).
+  pose proof hp as [(_ & _ & tp & _) _]. pose proof hq as [(_ & _ & tq & _) _].
+  pose proof hx as [(_ & nmx & tx & _) _]. pose proof hy as [(_ & nmy & ty & _) _].
+  rewrite tx, ty. apply (TD p q np nq x y nx ny Wp0 Wq0); [congruence | | | exact Wx0 | exact Wy0 | congruence].
+  - apply (node_rel_elem_iff np np' x hp). exact ix.
+  - apply (node_rel_elem_iff nq nq' y hq). exact iy.
+Qed.
+
+Lemma U64_rel w w' : world_rel' w w' -> U64 w -> U64 w'.
+Proof.
+  intros (_ & _ & _ & nodes) U i n' Wi. pose proof (nodes i) as h. rewrite Wi in h.
+  destruct (w_nodes w i) as [n |] eqn:W0; [| destruct h]. destruct (U i n W0) as [ud ua]. split.
+  - intros d id. apply ud. eapply node_rel_in_data; eauto.
+  - destruct h as [(_ & _ & _ & ea & _) _]. rewrite ea. exact ua.
+Qed.
+
+(* Equal + equal types all the way down = twins at every depth *)
+Lemma same_twin w : TypeDet w -> forall f a b na nb, same_f w f a b -> w_nodes w a = Some na -> w_nodes w b = Some nb ->
+  n_type na = n_type nb -> forall g, twin_f w w g a b.
+Proof.
+  intros TD. induction f as [| f IH]; intros a b na nb S Wa Wb et g; [destruct S |].
+  destruct g as [| g]; [exact I |].
+  destruct S as (na' & nb' & Wa' & Wb' & en & ea & F). rewrite Wa in Wa'. rewrite Wb in Wb'. injection Wa' as <-. injection Wb' as <-.
+  exists na, nb. repeat split; auto.
+  eapply forall2_impl; [| exact F]. intros x y ix iy h.
+  destruct x as [x | d], y as [y | e]; cbn in *; try tauto.
+  destruct f as [| f']; [destruct h |].
+  pose proof h as (nx & ny & Wx & Wy & enx & _).
+  apply (IH x y nx ny h Wx Wy); auto.
+  apply (TD a b na nb x y nx ny Wa Wb et ix iy Wx Wy enx).
+Qed.
+
+Fixpoint perm_eq_f (u v : world) (f : nat) (i : id) : Prop :=
+  match f with
+  | O => True
+  | S f' =>
+    exists n n' mode, w_nodes u i = Some n /\ w_nodes v i = Some n' /\
+      n_name n = n_name n' /\ n_type n = n_type n' /\ n_attrs n = n_attrs n' /\ content_mode T (n_type n) = Val mode /\
+      if (mode =? MCharacters) || (mode =? MMixed)
+      then n_content n = n_content n' /\ forall c, In (CElem c) (n_content n) -> twin_f u v f' c c
+      else exists ordered, is_ordered T (n_type n) = Val ordered /\
+           (forall c, In (CElem c) (n_content n) -> perm_eq_f u v f' c) /\
+           if negb ordered && (1 <? N.of_nat (List.length (n_content n)))
+           then Permutation (n_content n) (n_content n') else n_content n = n_content n'
+  end.
+(* the two worlds hold the same tree below i except for the order of the children of reorderable nodes *)
+Definition perm_equiv (u v : world) (i : id) : Prop := forall f, perm_eq_f u v f i.
+
+Lemma forall2_same {A} (R : A -> A -> Prop) l : (forall x, In x l -> R x x) -> Forall2 R l l.
+Proof. induction l; constructor; auto. - apply H; left; auto. - apply IHl. intros. apply H. right; auto. Qed.
+
+Lemma each_twin g reg cs u v u4 v4 :
+  Regions u reg -> Regions v reg -> world_rel' u u4 -> world_rel' v v4 ->
+  each_ok g reg cs u u4 -> each_ok g reg cs v v4 ->
+  (forall c uc vc, In c cs -> sort_f' g c u = Val (OK tt, uc) -> sort_f' g c v = Val (OK tt, vc) -> forall f, twin_f uc vc f c c) ->
+  forall c, In c cs -> forall f, twin_f u4 v4 f c c.
+Proof.
+  intros Ru Rv R4u R4v [Eu _] [Ev _] H c ic f.
+  destruct (Eu c ic) as (uc & Euc & Auc). destruct (Ev c ic) as (vc & Evc & Avc).
+  pose proof (FR g _ _ _ _ Euc) as [_ Ruc]. pose proof (FR g _ _ _ _ Evc) as [_ Rvc].
+  eapply (twin_transfer (reg c) (reg c) uc vc u4 v4); eauto.
+  - apply (rg_closed _ _ (Regions_rel _ _ _ Ruc Ru)).
+  - apply (rg_closed _ _ (Regions_rel _ _ _ Rvc Rv)).
+  - apply (rg_self _ _ Ru).
+  - apply (rg_self _ _ Ru).
+Qed.
+
+Hypothesis inj_el : forall x y s, to_str tab_el x = Some s -> to_str tab_el y = Some s -> x = y.
+Hypothesis inj_at : forall x y s, to_str tab_at x = Some s -> to_str tab_at y = Some s -> x = y.
+Hypothesis inj_en : forall x y s, to_str tab_en x = Some s -> to_str tab_en y = Some s -> x = y.
+
+Theorem sort_canon reg : forall g i u v u1 v1,
+  Regions u reg -> Regions v reg -> TypeDet u -> U64 u -> w_next v = w_next u -> perm_equiv u v i ->
+  sort_f' g i u = Val (OK tt, u1) -> sort_f' g i v = Val (OK tt, v1) -> forall f, twin_f u1 v1 f i i.
+Proof.
+  induction g as [| g IH]; intros i u v u1 v1 Ru Rv TD UU NX PE Hu Hv; [discriminate |].
+  pose proof (FR (S g) _ _ _ _ Hu) as [_ Rwu]. pose proof (FR (S g) _ _ _ _ Hv) as [_ Rwv].
+  destruct (PE 1%nat) as (n & n' & mode & Wu & Wv & en & et & ea & Hmode & _).
+  cbn [sort_f] in Hu, Hv.
+  apply wbind_val in Hu as [(n0 & w1 & E1 & Hu) | (e & E1 & [=])].
+  apply get_node_val in E1 as (n0' & Wi & E1 & ->). injection E1 as <-. rewrite Wu in Wi. injection Wi as <-.
+  apply wbind_val in Hv as [(n0 & w1 & E1 & Hv) | (e & E1 & [=])].
+  apply get_node_val in E1 as (n0' & Wi & E1 & ->). injection E1 as <-. rewrite Wv in Wi. injection Wi as <-.
+  apply wbind_val in Hu as [(m1 & w2 & E2 & Hu) | (e & E2 & [=])].
+  apply wl_val in E2 as (m1' & Hm1 & E2 & ->). injection E2 as <-. rewrite Hmode in Hm1. injection Hm1 as <-.
+  apply wbind_val in Hv as [(m1 & w2 & E2 & Hv) | (e & E2 & [=])].
+  apply wl_val in E2 as (m1' & Hm1 & E2 & ->). injection E2 as <-. rewrite <- et, Hmode in Hm1. injection Hm1 as <-.
+  (* what perm_equiv says about i, at every depth *)
+  assert (PEi : forall f, if (mode =? MCharacters) || (mode =? MMixed)
+                then n_content n = n_content n' /\ forall c, In (CElem c) (n_content n) -> twin_f u v f c c
+                else exists ordered, is_ordered T (n_type n) = Val ordered /\
+                     (forall c, In (CElem c) (n_content n) -> perm_eq_f u v f c) /\
+                     if negb ordered && (1 <? N.of_nat (List.length (n_content n)))
+                     then Permutation (n_content n) (n_content n') else n_content n = n_content n').
+  { intros f. destruct (PE (S f)) as (n2 & n2' & mode2 & Wu2 & Wv2 & _ & _ & _ & Hmode2 & H).
+    rewrite Wu in Wu2. rewrite Wv in Wv2. injection Wu2 as <-. injection Wv2 as <-.
+    rewrite Hmode in Hmode2. injection Hmode2 as <-. exact H. }
+  destruct ((mode =? MCharacters) || (mode =? MMixed)) eqn:Em.
+  { cbn in Hu, Hv. injection Hu as <-. injection Hv as <-. intros [| f]; [exact I |].
+    destruct (PEi f) as [ec tw]. exists n, n'. repeat split; auto. rewrite <- ec.
+    apply forall2_same. intros [c | d] ic; cbn; auto. }
+  destruct (PEi O) as (ordered & Hord & _ & _).
+  assert (PEc : forall c, In (CElem c) (n_content n) -> perm_equiv u v c).
+  { intros c ic f. destruct (PEi f) as (o2 & _ & H & _). auto. }
+  assert (PEl : if negb ordered && (1 <? N.of_nat (List.length (n_content n)))
+                then Permutation (n_content n) (n_content n') else n_content n = n_content n').
+  { destruct (PEi O) as (o2 & Ho2 & _ & H). rewrite Hord in Ho2. injection Ho2 as <-. exact H. }
+  apply wbind_val in Hu as [(o1 & w3 & E3 & Hu) | (e & E3 & [=])].
+  apply wl_val in E3 as (o1' & Ho1 & E3 & ->). injection E3 as <-. rewrite Hord in Ho1. injection Ho1 as <-.
+  apply wbind_val in Hv as [(o1 & w3 & E3 & Hv) | (e & E3 & [=])].
+  apply wl_val in E3 as (o1' & Ho1 & E3 & ->). injection E3 as <-. rewrite <- et, Hord in Ho1. injection Ho1 as <-.
+  pose proof (rg_nodup _ _ Ru i n Wu) as ndu. pose proof (children_disjoint u reg i n Ru Wu) as disu.
+  pose proof (rg_nodup _ _ Rv i n' Wv) as ndv. pose proof (children_disjoint v reg i n' Rv Wv) as disv.
+  (* the recursion on a child *)
+  assert (REC : forall c uc vc, In (CElem c) (n_content n) -> sort_f' g c u = Val (OK tt, uc) -> sort_f' g c v = Val (OK tt, vc) ->
+                  forall f, twin_f uc vc f c c).
+  { intros c uc vc ic Euc Evc. eapply (IH c u v); eauto. }
+  destruct (negb ordered && (1 <? N.of_nat (List.length (n_content n)))) eqn:Eb.
+  - (* both runs sort: the same multiset of children, in different orders *)
+    assert (Eb' : negb ordered && (1 <? N.of_nat (List.length (n_content n'))) = true)
+      by (rewrite <- (Permutation_length PEl); exact Eb).
+    rewrite Eb' in Hv.
+    assert (PC : Permutation (celems (n_content n)) (celems (n_content n'))) by (apply celems_perm; exact PEl).
+    apply wbind_val in Hu as [(ku & u4 & E4u & Hu) | (e & E4 & [=])].
+    apply wbind_val in Hv as [(kv & v4 & E4v & Hv) | (e & E4 & [=])].
+    pose proof (keyed_loop_frame T _ _ _ (FR g) _ _ _ E4u) as (R4u & ? & Ek & Hku). injection Ek as <-.
+    pose proof (keyed_loop_frame T _ _ _ (FR g) _ _ _ E4v) as (R4v & ? & Ek & Hkv). injection Ek as <-.
+    pose proof (keyed_loop_keyed _ _ _ (FR g) _ _ _ E4u) as Kdu.
+    pose proof (keyed_loop_keyed _ _ _ (FR g) _ _ _ E4v) as Kdv.
+    pose proof (keyed_loop_each g reg _ _ _ _ _ Ru ndu disu E4u) as Eachu.
+    pose proof (keyed_loop_each g reg _ _ _ _ _ Rv ndv disv E4v) as Eachv.
+    pose proof (Regions_rel _ _ _ R4u Ru) as Rg4u. pose proof (Regions_rel _ _ _ R4v Rv) as Rg4v.
+    (* every child: twins in u4 / v4 *)
+    assert (TW4 : forall c, In c (celems (n_content n)) -> forall f, twin_f u4 v4 f c c).
+    { apply (each_twin g reg (celems (n_content n)) u v u4 v4); auto.
+      - destruct Eachv as [Hc Ho]. split.
+        + intros c ic. apply Hc. eapply Permutation_in; eauto.
+        + intros x H. apply Ho. intros c ic. apply H. eapply Permutation_in; [apply Permutation_sym; exact PC | exact ic].
+      - intros c uc vc ic. apply REC. apply in_celems; auto. }
+    apply wbind_val in Hu as [(wc & w5 & E5 & Hu) | (e & E5 & [=])]. unfold wget in E5. injection E5 as <- <-.
+    apply wbind_val in Hv as [(wc & w5 & E5 & Hv) | (e & E5 & [=])]. unfold wget in E5. injection E5 as <- <-.
+    apply wbind_val in Hu as [(x6 & w6 & E6 & Hu) | (e & E6 & [=])].
+    apply wl_val in E6 as (x6' & APu & _ & ->). destruct x6'.
+    apply wbind_val in Hv as [(y6 & w6 & E6 & Hv) | (e & E6 & [=])].
+    apply wl_val in E6 as (y6' & APv & _ & ->). destruct y6'.
+    unfold modify_node in Hu, Hv.
+    apply wbind_val in Hu as [(nu & w7 & E7 & Hu) | (e & E7 & [=])].
+    apply get_node_val in E7 as (nu' & W4u & E7 & ->). injection E7 as <-.
+    apply wbind_val in Hv as [(nv & w7 & E7 & Hv) | (e & E7 & [=])].
+    apply get_node_val in E7 as (nv' & W4v & E7 & ->). injection E7 as <-.
+    unfold set_node in Hu, Hv. injection Hu as EU. injection Hv as EV.
+    set (kcu := key_cmp (cmp_tot u4)) in *. set (kcv := key_cmp (cmp_tot v4)) in *.
+    assert (Wu1 : w_nodes u1 i = Some (set_content nu (map (fun k => CElem (snd k)) (srt _ kcu ku)))).
+    { rewrite <- EU. cbn. unfold upd. rewrite N.eqb_refl. reflexivity. }
+    assert (Wv1 : w_nodes v1 i = Some (set_content nv (map (fun k => CElem (snd k)) (srt _ kcv kv)))).
+    { rewrite <- EV. cbn. unfold upd. rewrite N.eqb_refl. reflexivity. }
+    assert (AFu : forall D, D i = false -> agree D u4 u1).
+    { intros D di. rewrite <- EU. split; auto. intros j dj. cbn. unfold upd. destruct (j =? i) eqn:Ej; auto. apply N.eqb_eq in Ej. congruence. }
+    assert (AFv : forall D, D i = false -> agree D v4 v1).
+    { intros D di. rewrite <- EV. split; auto. intros j dj. cbn. unfold upd. destruct (j =? i) eqn:Ej; auto. apply N.eqb_eq in Ej. congruence. }
+    clear EU EV.
+    (* children exist, their regions do not contain i *)
+    assert (CHu : forall c, In c (celems (n_content n)) -> reg c i = false /\ exists cn, w_nodes u4 c = Some cn).
+    { intros c ic. apply in_celems in ic. split; [apply (rg_up _ _ Ru i n c Wu ic) |].
+      destruct (rg_closed _ _ Ru i i n c (rg_self _ _ Ru i) Wu ic) as [_ [cn Wc]].
+      destruct R4u as (_ & _ & _ & nodes). pose proof (nodes c) as h. rewrite Wc in h. destruct (w_nodes u4 c); [eauto | destruct h]. }
+    assert (NX4 : w_next v4 = w_next u4).
+    { destruct R4u as (a & _). destruct R4v as (b & _). congruence. }
+    (* the same keys: names are the same *)
+    assert (IDX : forall c, In c (celems (n_content n)) -> idx_of v4 (n_type n') c = idx_of u4 (n_type n) c).
+    { intros c ic. destruct (TW4 c ic 1%nat) as (a & b & Wa & Wb & enc & _). unfold idx_of. rewrite Wa, Wb, <- et, enc. reflexivity. }
+    assert (Kv : kv = map (fun c => (idx_of u4 (n_type n) c, c)) (celems (n_content n'))).
+    { rewrite Kdv. unfold keyed_of. apply map_ext_in. intros c ic. f_equal. apply IDX.
+      eapply Permutation_in; [apply Permutation_sym; exact PC | exact ic]. }
+    assert (PK : Permutation ku kv).
+    { rewrite Kdu, Kv. unfold keyed_of. apply Permutation_map. exact PC. }
+    assert (MU : forall k, In k ku -> In (snd k) (celems (n_content n))) by (intros k ik; rewrite <- Hku; apply in_map; auto).
+    assert (MV : forall k, In k kv -> In (snd k) (celems (n_content n))).
+    { intros k ik. apply MU. eapply Permutation_in; [apply Permutation_sym; exact PK | exact ik]. }
+    (* the same comparison in both worlds *)
+    assert (CE : forall a b, In a (celems (n_content n)) -> In b (celems (n_content n)) -> cmp_p' u4 a b = cmp_p' v4 a b).
+    { intros a b ia ib. unfold cmp_p. rewrite NX4. apply cmp_twin; apply TW4; auto. }
+    assert (KE : forall x y, In x kv -> In y kv -> kcv x y = kcu x y).
+    { intros x y ix iy. unfold kcu, kcv, key_cmp, cmp_total. rewrite (CE (snd x) (snd y)); auto. }
+    assert (TPu : TotalPreorderOn kcu (fun k => In k ku)).
+    { apply (key_cmp_total_preorder T tab_el tab_at tab_en name_index name_definition_ref u4 ku).
+      intros a b ia ib. eapply all_pairs_val_inv; eauto. }
+    assert (TPv : TotalPreorderOn kcv (fun k => In k kv)).
+    { apply (key_cmp_total_preorder T tab_el tab_at tab_en name_index name_definition_ref v4 kv).
+      intros a b ia ib. eapply all_pairs_val_inv; eauto. }
+    rewrite (srt_ext_on srt SS kcv kcu kv TPv KE) in Wv1.
+    pose proof (sort_order_independent srt srt kcu ku kv SS SS TPu PK) as F2.
+    (* position-wise Equal -> position-wise twins, in the final worlds *)
+    intros [| f]; [exact I |].
+    eexists. eexists. split; [exact Wu1 |]. split; [exact Wv1 |].
+    assert (RLu : node_rel T n nu).
+    { destruct R4u as (_ & _ & _ & nodes). pose proof (nodes i) as h. rewrite Wu, W4u in h. exact h. }
+    assert (RLv : node_rel T n' nv).
+    { destruct R4v as (_ & _ & _ & nodes). pose proof (nodes i) as h. rewrite Wv, W4v in h. exact h. }
+    destruct RLu as [(_ & enu & etu & eau & _) _]. destruct RLv as [(_ & env & etv & eav & _) _].
+    cbn [n_name n_type n_attrs n_content set_content].
+    split; [congruence |]. split; [congruence |]. split; [congruence |].
+    assert (INu : forall k, In k (srt _ kcu ku) -> In (snd k) (celems (n_content n))).
+    { intros k ik. apply MU. apply (ss_in srt SS) in ik. exact ik. }
+    assert (INv : forall k, In k (srt _ kcu kv) -> In (snd k) (celems (n_content n))).
+    { intros k ik. apply MV. apply (ss_in srt SS) in ik. exact ik. }
+    clear Wu1 Wv1. revert INu INv. induction F2 as [| x y l1 l2 exy F2 IHF]; intros INu INv; cbn [map]; constructor.
+    + cbn [item_twin].
+      assert (ia : In (snd x) (celems (n_content n))) by (apply INu; left; auto).
+      assert (ib : In (snd y) (celems (n_content n))) by (apply INv; left; auto).
+      destruct (CHu _ ia) as [ua [na Wa]]. destruct (CHu _ ib) as [ub [nb Wb]].
+      (* Equal in u4 -> same tree in u4 -> twins u4/u4, then u4/v4 through the second one *)
+      unfold kcu, key_cmp in exy. apply cthen_eq in exy as [_ exy].
+      assert (VAL : exists c, cmp_p' u4 (snd x) (snd y) = Val c).
+      { eapply all_pairs_val_inv; eauto; rewrite Hku; auto. }
+      destruct VAL as [c Vc]. unfold cmp_total in exy. rewrite Vc in exy. subst c.
+      pose proof (cmp_eq_same T tab_el tab_at tab_en name_index name_definition_ref u4 inj_el inj_at inj_en
+                    (U64_rel _ _ R4u UU) _ _ _ Vc) as SM.
+      assert (TY : n_type na = n_type nb).
+      { pose proof SM as (na' & nb' & Wa' & Wb' & enab & _). rewrite Wa in Wa'. rewrite Wb in Wb'.
+        injection Wa' as <-. injection Wb' as <-.
+        eapply (TypeDet_rel _ _ R4u TD i i nu nu (snd x) (snd y) na nb); eauto;
+          [apply (node_rel_elem_iff n nu); [| apply in_celems; auto] | apply (node_rel_elem_iff n nu); [| apply in_celems; auto]];
+          destruct R4u as (_ & _ & _ & nodes); pose proof (nodes i) as h; rewrite Wu, W4u in h; exact h. }
+      pose proof (same_twin u4 (TypeDet_rel _ _ R4u TD) _ _ _ na nb SM Wa Wb TY f) as T1.
+      pose proof (twin_trans u4 u4 v4 f _ _ _ T1 (TW4 _ ib f)) as T2.
+      apply (twin_transfer (reg (snd x)) (reg (snd y)) u4 v4 u1 v1 (rg_closed _ _ Rg4u _) (AFu _ ua)
+               (rg_closed _ _ Rg4v _) (AFv _ ub) f _ _ (rg_self _ _ Ru _) (rg_self _ _ Ru _) T2).
+    + apply IHF; intros; [apply INu | apply INv]; right; auto.
+  - (* both runs only descend: the same list *)
+    rewrite <- PEl, Eb in Hv.
+    pose proof (iter_loop_frame T _ _ (FR g) _ _ _ Hu) as [_ R4u].
+    pose proof (iter_loop_frame T _ _ (FR g) _ _ _ Hv) as [_ R4v].
+    pose proof (iter_loop_each g reg _ _ _ _ Ru ndu disu Hu) as Eachu.
+    assert (ndv' : NoDup (celems (n_content n))) by exact ndu.
+    pose proof (iter_loop_each g reg _ _ _ _ Rv ndu (fun c c' x ic ic' => disu c c' x ic ic') Hv) as Eachv.
+    assert (TW : forall c, In c (celems (n_content n)) -> forall f, twin_f u1 v1 f c c).
+    { apply (each_twin g reg (celems (n_content n)) u v u1 v1); auto.
+      intros c uc vc ic. apply REC. apply in_celems; auto. }
+    assert (Wu1 : w_nodes u1 i = Some n).
+    { rewrite (proj2 Eachu i); auto. intros c ic. apply (rg_up _ _ Ru i n c Wu). apply in_celems; auto. }
+    assert (Wv1 : w_nodes v1 i = Some n').
+    { rewrite (proj2 Eachv i); auto. intros c ic. apply (rg_up _ _ Ru i n c Wu). apply in_celems; auto. }
+    intros [| f]; [exact I |]. exists n, n'. repeat split; auto. rewrite <- PEl.
+    apply forall2_same. intros [c | d] ic; cbn; auto. apply TW. apply in_celems; auto.
+Qed.
+
 End Canon.
